@@ -328,6 +328,10 @@ type vec struct {
 	W      int    `json:"w"`
 	Ta     hx.B   `json:"ta"`
 	Tb     hx.B   `json:"tb"`
+	Ra     hx.B   `json:"ra"` // octet / rawname: the same two names spelled with RAW octets (only . and \ escaped)
+	Rb     hx.B   `json:"rb"`
+	Wa     hx.B   `json:"wa"` // ... and their wire form
+	Wb     hx.B   `json:"wb"`
 	N      int    `json:"n"`  // lens: length of the base list
 	La     []int  `json:"la"` // lens: element numbers of the first / second record's list
 	Lb     []int  `json:"lb"`
@@ -576,7 +580,11 @@ func (rp *replayer) seqs(in *inst, vecs []*vec, hasName, hasVal bool) {
 	}
 }
 
-// octets: names that differ in one octet c / c XOR 0x20, as owner and in every embedded name.
+// octets: names that differ in one octet c / c XOR 0x20 ("octet"), names as label sequences
+// ("name2"), names of raw octets related by Unicode -- not DNS -- case folding ("rawname"), as
+// owner and in every embedded name.  Two spellings: escaped (the presentation form Unpack gives)
+// and raw (every octet itself, what a hand-built record or the zone parser holds for an octet
+// >= 0x80); a raw spelling is used where the library packs it to the wire form of the vector.
 func (rp *replayer) octets(k rw.Kind, names []string, vecs []*vec) {
 	kn := keyName(k.Name)
 	base := &inst{kind: k}
@@ -587,43 +595,84 @@ func (rp *replayer) octets(k rw.Kind, names []string, vecs []*vec) {
 			usable = append(usable, n)
 		}
 	}
+	// one pair of records per place; the name under test is set anew for every vector
+	type place struct {
+		where, field string
+		ra, rb       dns.RR
+		seta, setb   func(s string)
+	}
+	var places [3][]*place // by v.W
+	{
+		ra, rb := k.Build(), k.Build()
+		places[1] = append(places[1], &place{"owner", "", ra, rb, func(s string) { ra.Header().Name = s }, func(s string) { rb.Header().Name = s }})
+	}
+	for _, n := range usable {
+		ra, rb := k.Build(), k.Build()
+		ca, cb := cellAt(ra, n), cellAt(rb, n)
+		places[2] = append(places[2], &place{"name", ":" + fieldOf(n), ra, rb, func(s string) { ca.V.SetString(s) }, func(s string) { cb.V.SetString(s) }})
+	}
+	packs := func(s string, w []byte) bool {
+		buf := make([]byte, 300)
+		off, err := dns.PackDomainName(s, buf, 0, nil, false)
+		return err == nil && bytes.Equal(buf[:off], w)
+	}
 	for _, v := range vecs {
-		if v.Kind != "octet" && v.Kind != "name2" {
+		if v.Kind != "octet" && v.Kind != "name2" && v.Kind != "rawname" {
 			continue
 		}
 		what := "octet-xor-0x20"
-		if v.Kind == "name2" { // two label sequences: a dot octet inside a label is not a label boundary
+		switch v.Kind {
+		case "name2": // two label sequences: a dot octet inside a label is not a label boundary
 			what = "label-sequence"
+		case "rawname": // octet strings that only a Unicode-aware comparison relates
+			what = "non-ascii-octets"
 		}
-		try := func(where, field string, set func(rr dns.RR, s string)) {
-			ra, rb := k.Build(), k.Build()
-			set(ra, v.Ta.String())
-			set(rb, v.Tb.String())
-			g1, g2 := dns.IsDuplicate(ra, rb), dns.IsDuplicate(rb, ra)
-			rp.sum.Evaluations += 2
-			rp.seen[kn+"/"+what+"-"+where+"/"+strconv.FormatBool(g1)] = true
-			if g1 == v.Dup && g2 == v.Dup {
-				return
-			}
-			key := "isduplicate/false-positive:" + kn + ":" + where + "-" + what + field
-			if v.Dup {
-				key = "isduplicate/false-negative:" + kn + ":" + where + "-case" + field
-				if never {
-					key = "isduplicate/" + kn + "-never-duplicate"
-				}
-			}
-			c := *v
-			c.RKind = k.Name
-			rp.sum.Mis(key, fmt.Sprintf("%s: IsDuplicate = %v / %v for %s %q vs %q (%s), Dup.tla says %v",
-				k.Name, g1, g2, where, v.Ta.String(), v.Tb.String(), what, v.Dup), map[string]interface{}{"vector": c})
-		}
-		if v.W == 1 {
-			try("owner", "", func(rr dns.RR, s string) { rr.Header().Name = s })
+		if v.W < 1 || v.W > 2 {
 			continue
 		}
-		for _, n := range usable {
-			n := n
-			try("name", ":"+fieldOf(n), func(rr dns.RR, s string) { cellAt(rr, n).V.SetString(s) })
+		for _, sp := range []string{"escaped", "raw"} {
+			ta, tb := v.Ta.String(), v.Tb.String()
+			if sp == "raw" {
+				if len(v.Ra) == 0 || len(v.Rb) == 0 {
+					continue
+				}
+				ta, tb = v.Ra.String(), v.Rb.String()
+				if ta == v.Ta.String() && tb == v.Tb.String() {
+					continue // nothing to escape: one spelling
+				}
+				if !packs(ta, v.Wa.Bytes()) || !packs(tb, v.Wb.Bytes()) {
+					rp.skips["raw-spelling-not-packed-as-such"]++
+					continue
+				}
+			} else if v.Kind == "rawname" && (!packs(ta, v.Wa.Bytes()) || !packs(tb, v.Wb.Bytes())) {
+				rp.skips["escaped-spelling-not-packed-as-such"]++
+				continue
+			}
+			suffix := ""
+			if sp == "raw" {
+				suffix = ":raw-octets"
+			}
+			for _, pl := range places[v.W] {
+				pl.seta(ta)
+				pl.setb(tb)
+				g1, g2 := dns.IsDuplicate(pl.ra, pl.rb), dns.IsDuplicate(pl.rb, pl.ra)
+				rp.sum.Evaluations += 2
+				rp.seen[kn+"/"+what+"-"+pl.where+"/"+sp+"/"+strconv.FormatBool(g1)] = true
+				if g1 == v.Dup && g2 == v.Dup {
+					continue
+				}
+				key := "isduplicate/false-positive:" + kn + ":" + pl.where + "-" + what + pl.field + suffix
+				if v.Dup {
+					key = "isduplicate/false-negative:" + kn + ":" + pl.where + "-case" + pl.field + suffix
+					if never {
+						key = "isduplicate/" + kn + "-never-duplicate"
+					}
+				}
+				c := *v
+				c.RKind = k.Name
+				rp.sum.Mis(key, fmt.Sprintf("%s: IsDuplicate = %v / %v for %s %q vs %q (%s, %s spelling), Dup.tla says %v",
+					k.Name, g1, g2, pl.where, ta, tb, what, sp, v.Dup), map[string]interface{}{"vector": c})
+			}
 		}
 	}
 }
@@ -1072,6 +1121,9 @@ type event struct {
 	Never  bool      `json:"never"`  // IsDuplicate(x, x') is false already for the kind's unmodified record
 	Repack bool      `json:"repack"` // the decoded record a packs again
 	Mut    string    `json:"mut,omitempty"`
+	La     []int     `json:"la"` // law: the element numbers the lists of the two records hold
+	Lb     []int     `json:"lb"`
+	Copy   bool      `json:"copy"` // law: IsDuplicate(a, Copy(a)) and IsDuplicate(Copy(a), a)
 	List   []textRec `json:"list"`
 	Out    []outRec  `json:"out"`
 }
@@ -1701,6 +1753,81 @@ func lenSweep(k rw.Kind, never bool, w *hx.Writer, sum *hx.Summary, seen map[str
 	}
 }
 
+// lawSweep: records that have NO wire form.  For every slice of the kind, every ordered pair of
+// lists of at most maxLen elements drawn (with repetition, in any order) from its first three
+// elements where the library refuses to pack at least one of the two records (a repeated SVCB
+// key, ...): such records are not described by octets, so Dup.tla judges what the statement
+// says of ALL records (event "law"): the answer is the same in both argument orders, a record
+// is a duplicate of itself, of its copy and of a second record built the same way.
+func lawSweep(k rw.Kind, never bool, w *hx.Writer, sum *hx.Summary, seen map[string]bool) {
+	if never || neverDupBuilt(k) {
+		return
+	}
+	maxLen := 2
+	if hx.Thorough() {
+		maxLen = 3
+	}
+	for _, path := range listPaths(k) {
+		n := cellAt(k.Build(), path).V.Len()
+		if n > 3 {
+			n = 3
+		}
+		var sels [][]int
+		var grow func(cur []int)
+		grow = func(cur []int) {
+			sels = append(sels, append([]int{}, cur...))
+			if len(cur) == maxLen {
+				return
+			}
+			for e := 1; e <= n; e++ {
+				grow(append(cur, e))
+			}
+		}
+		grow(nil)
+		packsSel := make([]bool, len(sels))
+		any := false
+		for i, sel := range sels {
+			packsSel[i] = repacks(withList(k, path, sel))
+			any = any || !packsSel[i]
+		}
+		if !any {
+			continue
+		}
+		for i, la := range sels {
+			for j, lb := range sels {
+				if packsSel[i] && packsSel[j] {
+					continue // both have a wire form: judged on their octets (lens, lenSweep)
+				}
+				a, a2, b := withList(k, path, la), withList(k, path, la), withList(k, path, lb)
+				var ab, ba, self, cp bool
+				p := hx.Catch(func() {
+					ab, ba = dns.IsDuplicate(a, b), dns.IsDuplicate(b, a)
+					self = dns.IsDuplicate(a, a) && dns.IsDuplicate(a, a2) && dns.IsDuplicate(a2, a)
+					c := dns.Copy(a)
+					cp = dns.IsDuplicate(a, c) && dns.IsDuplicate(c, a)
+				})
+				sum.Evaluations += 7
+				mid := keyName(k.Name) + ":no-wire-form:" + fieldOf(path)
+				if p != "" {
+					sum.Mis("isduplicate/panics:"+mid, fmt.Sprintf("%s: IsDuplicate panics for %s holding the elements %v / %v: %s", k.Name, path, la, lb, firstLine(p)),
+						map[string]interface{}{"sweep": map[string]interface{}{"kind": k.Name, "path": path, "la": la, "lb": lb}})
+					continue
+				}
+				e := &event{Ev: "law", K: k.Name, Rel: "no-wire-form", La: la, Lb: lb, Dup: ab, RDup: ba, Self: self, Copy: cp, Never: never, Mut: fieldOf(path)}
+				if e.La == nil {
+					e.La = []int{}
+				}
+				if e.Lb == nil {
+					e.Lb = []int{}
+				}
+				e.I = w.N + 1
+				w.Emit(e)
+				seen[k.Name+"/law/"+strconv.FormatBool(ab)+strconv.FormatBool(ba)] = true
+			}
+		}
+	}
+}
+
 // hdrSweep: the packed record with ONE BIT of its type, class or TTL octets flipped (every bit of
 // type and class; `ttlBits' of the TTL), decoded and compared with the decoding of the unmodified
 // octets.  Type and class of the description are read from the octets.
@@ -1806,6 +1933,7 @@ func sweep(out string, shard, nshards int) {
 		addrSweep(k, never, w, sum, seen)
 		spellSweep(k, never, w, sum, seen)
 		lenSweep(k, never, w, sum, seen)
+		lawSweep(k, never, w, sum, seen)
 		hdrSweep(k, never, w, sum, seen)
 		wb, err := packRR(base)
 		if err != nil {
